@@ -5,19 +5,19 @@ import Aiortc.Lemmas.SctpNoCrashCtl
 namespace Aiortc.Sctp.V2
 open Aiortc.Gen Aiortc.Sctp.Wire
 set_option linter.unusedSimpArgs false
-variable {U : List Nat} {n : Nat}
+variable {U : List Nat}
 
 /-- `WF` does not read the fields that changed. -/
 macro "wf_same2 " h:term : tactic =>
-  `(tactic| exact ⟨($h).net, ($h).ch, ($h).tx, ($h).rx, ($h).rcReq, ($h).rcResp, ($h).sack, ($h).room, ($h).ids, ($h).cap, ($h).tm1, ($h).tm2, ($h).tasks, ($h).rcr⟩)
+  `(tactic| exact ⟨($h).net, ($h).ch, ($h).tx, ($h).rx, ($h).rcReq, ($h).rcResp, ($h).sack, ($h).ids, ($h).cap, ($h).tm1, ($h).tm2, ($h).tasks, ($h).rcr⟩)
 
-theorem wp_setState_established {A} {Q : Unit → St → Prop} {e : Ep} {l : List Out} (h : WF U n e)
-    (hq : ∀ e' l', WF U n e' → e'.rwnd = e.rwnd → e'.inStreams = e.inStreams → Q () (e', l')) :
+theorem wp_setState_established {A} {Q : Unit → St → Prop} {e : Ep} {l : List Out} (h : WF U e)
+    (hq : ∀ e' l', WF U e' → e'.rwnd = e.rwnd → e'.inStreams = e.inStreams → Q () (e', l')) :
     wp A (setState .established) Q (e, l) := by
   unfold setState
   simp only [wp_bind, wp_modE, if_true, wp_getE]
-  have hw0 : WF U n { e with assoc := .established, state := "connected" } := by wf_same2 h
-  refine wp_forIn A _ _ _ (fun suf s' => WF U n s'.1 ∧ (∀ p ∈ suf, p.2 < s'.1.chans.length) ∧
+  have hw0 : WF U { e with assoc := .established, state := "connected" } := by wf_same2 h
+  refine wp_forIn A _ _ _ (fun suf s' => WF U s'.1 ∧ (∀ p ∈ suf, p.2 < s'.1.chans.length) ∧
     s'.1.rwnd = e.rwnd ∧ s'.1.inStreams = e.inStreams) _ ⟨hw0, hw0.ch.dcIdx, rfl, rfl⟩ ?_ ?_
   · intro ⟨sid, i⟩ rest ⟨e1, l1⟩ ⟨hw, hidx, hr, hi⟩
     have hlt : i < e1.chans.length := hidx (sid, i) (by simp)
@@ -35,8 +35,8 @@ theorem wp_setState_established {A} {Q : Unit → St → Prop} {e : Ep} {l : Lis
     simp only [wp_queueTask]
     exact hq _ _ (hw.pushTask trivial) hr hi
 
-theorem wp_setState_closed {A} {Q : Unit → St → Prop} {e : Ep} {l : List Out} (h : WF U n e)
-    (hq : ∀ e' l', WF U n e' → e'.rwnd = e.rwnd → e'.inStreams = e.inStreams → Q () (e', l')) :
+theorem wp_setState_closed {A} {Q : Unit → St → Prop} {e : Ep} {l : List Out} (h : WF U e)
+    (hq : ∀ e' l', WF U e' → e'.rwnd = e.rwnd → e'.inStreams = e.inStreams → Q () (e', l')) :
     wp A (setState .closed) Q (e, l) := by
   unfold setState
   simp only [wp_bind, wp_modE, reduceCtorEq, if_false, if_true]
@@ -47,13 +47,13 @@ theorem wp_setState_closed {A} {Q : Unit → St → Prop} {e : Ep} {l : List Out
   simp only [wp_modE, wp_getE]
   have htx : TxOk U { e.tx with t3 := false } :=
     h.tx.congr rfl rfl rfl rfl rfl rfl rfl rfl
-  have hw0 : WF U n { e with assoc := .closed, t1 := false, t1Chunk := ch1, t2 := false, t2Chunk := ch2,
-                             tx := { e.tx with t3 := false }, rcTimer := false, state := "closed",
-                             reconfigQueue := [], reconfigRequest := none } :=
+  have hw0 : WF U { e with assoc := .closed, t1 := false, t1Chunk := ch1, t2 := false, t2Chunk := ch2,
+                           tx := { e.tx with t3 := false }, rcTimer := false, state := "closed",
+                           reconfigQueue := [], reconfigRequest := none } :=
     ⟨h.net, ⟨h.ch.dcIdx, h.ch.dcKeys, h.ch.qIdx, h.ch.qPR, h.ch.qPpid, h.ch.sid, by simp⟩, htx, h.rx,
-     h.rcReq, h.rcResp, h.sack, h.room, h.ids, h.cap, (fun hf => by cases hf), (fun hf => by cases hf), h.tasks,
+     h.rcReq, h.rcResp, h.sack, h.ids, h.cap, (fun hf => by cases hf), (fun hf => by cases hf), h.tasks,
      (fun p hp => by cases hp)⟩
-  refine wp_forIn A _ _ _ (fun suf s' => WF U n s'.1 ∧ s'.1.dataChannels = suf ∧
+  refine wp_forIn A _ _ _ (fun suf s' => WF U s'.1 ∧ s'.1.dataChannels = suf ∧
     s'.1.rwnd = e.rwnd ∧ s'.1.inStreams = e.inStreams) _ ⟨hw0, rfl, rfl, rfl⟩ ?_ ?_
   · intro ⟨sid, i⟩ rest ⟨e1, l1⟩ ⟨hw, hdc, hr, hi⟩
     simp only at hdc
@@ -67,7 +67,7 @@ theorem wp_setState_closed {A} {Q : Unit → St → Prop} {e : Ep} {l : List Out
     exact dictDel_cons_nodup (hdc ▸ hw.ch.dcKeys)
   · intro ⟨e1, l1⟩ ⟨hw, _, hr, hi⟩
     simp only [wp_getE, wp_bind]
-    refine wp_forIn A _ _ _ (fun suf s' => WF U n s'.1 ∧ (∀ x ∈ suf, x.1 < s'.1.chans.length) ∧
+    refine wp_forIn A _ _ _ (fun suf s' => WF U s'.1 ∧ (∀ x ∈ suf, x.1 < s'.1.chans.length) ∧
       s'.1.rwnd = e.rwnd ∧ s'.1.inStreams = e.inStreams) _ ⟨hw, hw.ch.qIdx, hr, hi⟩ ?_ ?_
     · intro ⟨i, ppid, data⟩ rest ⟨e2, l2⟩ ⟨hw2, hidx, hr2, hi2⟩
       simp only [wp_bind]
@@ -78,12 +78,12 @@ theorem wp_setState_closed {A} {Q : Unit → St → Prop} {e : Ep} {l : List Out
     · intro ⟨e2, l2⟩ ⟨hw2, _, hr2, hi2⟩
       simp only [wp_modE]
       refine hq _ _ ?_ hr2 hi2
-      exact ⟨hw2.net, hw2.ch.subQ (q' := []) (by simp), hw2.tx, hw2.rx, hw2.rcReq, hw2.rcResp, hw2.sack, hw2.room, hw2.ids, hw2.cap, hw2.tm1, hw2.tm2, hw2.tasks, hw2.rcr⟩
+      exact ⟨hw2.net, hw2.ch.subQ (q' := []) (by simp), hw2.tx, hw2.rx, hw2.rcReq, hw2.rcResp, hw2.sack, hw2.ids, hw2.cap, hw2.tm1, hw2.tm2, hw2.tasks, hw2.rcr⟩
 
-theorem WF.pushRcq {e : Ep} (h : WF U n e) {sid : Nat} (hs : sid < 65536) :
-    WF U n { e with reconfigQueue := e.reconfigQueue ++ [sid] } := by
+theorem WF.pushRcq {e : Ep} (h : WF U e) {sid : Nat} (hs : sid < 65536) :
+    WF U { e with reconfigQueue := e.reconfigQueue ++ [sid] } := by
   refine ⟨h.net, ⟨h.ch.dcIdx, h.ch.dcKeys, h.ch.qIdx, h.ch.qPR, h.ch.qPpid, h.ch.sid, ?_⟩, h.tx, h.rx,
-    h.rcReq, h.rcResp, h.sack, h.room, h.ids, h.cap, h.tm1, h.tm2, h.tasks, h.rcr⟩
+    h.rcReq, h.rcResp, h.sack, h.ids, h.cap, h.tm1, h.tm2, h.tasks, h.rcr⟩
   intro s hs'
   rcases List.mem_append.mp hs' with hs' | hs'
   · exact h.ch.rcq s hs'
@@ -91,9 +91,9 @@ theorem WF.pushRcq {e : Ep} (h : WF U n e) {sid : Nat} (hs : sid < 65536) :
 
 /-- `_data_channel_close(channel)`. The `KeyError` of `self._data_channels.pop(channel.id)` cannot happen
 while the association is established (the stream reset is queued instead). -/
-theorem wp_dcClose {A} {i : Nat} {Q : Unit → St → Prop} {e : Ep} {l : List Out} (h : WF U n e)
+theorem wp_dcClose {A} {i : Nat} {Q : Unit → St → Prop} {e : Ep} {l : List Out} (h : WF U e)
     (hi : i < e.chans.length) (hk : A "KeyError" ∨ e.assoc = .established)
-    (hq : ∀ e' l', WF U n e' → e'.rwnd = e.rwnd → e'.inStreams = e.inStreams → e'.assoc = e.assoc →
+    (hq : ∀ e' l', WF U e' → e'.rwnd = e.rwnd → e'.inStreams = e.inStreams → e'.assoc = e.assoc →
       e'.rx = e.rx → e'.chans.length = e.chans.length → Q () (e', l')) :
     wp A (dcClose i) Q (e, l) := by
   obtain ⟨c, hc⟩ := getElem?_of_lt hi
@@ -120,9 +120,9 @@ theorem wp_dcClose {A} {i : Nat} {Q : Unit → St → Prop} {e : Ep} {l : List O
         exact hq _ _ hw2 rfl rfl rfl rfl hlen
     · rename_i hnone
       simp only [wp_bind, wp_setE]
-      have hw2 : WF U n { e with chans := cs, dcQueue := e.dcQueue.filter fun q => q.1 != i } :=
+      have hw2 : WF U { e with chans := cs, dcQueue := e.dcQueue.filter fun q => q.1 != i } :=
         ⟨hw1.net, hw1.ch.subQ (fun x hx => (List.mem_filter.mp hx).1), hw1.tx, hw1.rx, hw1.rcReq, hw1.rcResp,
-         hw1.sack, hw1.room, hw1.ids, hw1.cap, hw1.tm1, hw1.tm2, hw1.tasks, hw1.rcr⟩
+         hw1.sack, hw1.ids, hw1.cap, hw1.tm1, hw1.tm2, hw1.tasks, hw1.rcr⟩
       split
       · rename_i sid hsid
         have hnotest : e.assoc ≠ .established := by
@@ -143,7 +143,7 @@ theorem wp_dcClose {A} {i : Nat} {Q : Unit → St → Prop} {e : Ep} {l : List O
     exact hq e l h rfl rfl rfl rfl rfl
 
 /-- `_send_reconfig_param(StreamResetResponseParam(...))`. -/
-theorem wp_sendReconfigResponse {A} {respSeq : Nat} {Q : Unit → St → Prop} {e : Ep} {l : List Out} (h : WF U n e)
+theorem wp_sendReconfigResponse {A} {respSeq : Nat} {Q : Unit → St → Prop} {e : Ep} {l : List Out} (h : WF U e)
     (hr : respSeq < 4294967296) (hq : ∀ l', Q () (e, l')) : wp A (sendReconfigResponse respSeq) Q (e, l) := by
   unfold sendReconfigResponse
   have hser : (RcParam.resetResp respSeq 1).serialize = .ok (RcParam.resetResp respSeq 1).bytes := by
@@ -154,9 +154,9 @@ theorem wp_sendReconfigResponse {A} {respSeq : Nat} {Q : Unit → St → Prop} {
   · intro d; exact hq _
 
 /-- `_receive_reconfig_param` (only called while the association is established). -/
-theorem wp_receiveReconfigParam {A} {p : RcParam} {Q : Unit → St → Prop} {e : Ep} {l : List Out} (h : WF U n e)
+theorem wp_receiveReconfigParam {A} {p : RcParam} {Q : Unit → St → Prop} {e : Ep} {l : List Out} (h : WF U e)
     (ha : Acc 0 e.rwnd e.inStreams) (hso : SidOk e.inStreams) (hp : p.Wired) (hest : e.assoc = .established)
-    (hq : ∀ e' l', WF U n e' → Acc 0 e'.rwnd e'.inStreams → SidOk e'.inStreams → e'.assoc = .established →
+    (hq : ∀ e' l', WF U e' → Acc 0 e'.rwnd e'.inStreams → SidOk e'.inStreams → e'.assoc = .established →
       Q () (e', l')) :
     wp A (receiveReconfigParam p) Q (e, l) := by
   cases p with
@@ -174,11 +174,11 @@ theorem wp_receiveReconfigParam {A} {p : RcParam} {Q : Unit → St → Prop} {e 
       · split
         · simp only [wp_pure]; exact hq _ _ h ha hso hest
         · simp only [wp_bind, wp_pure]
-          refine wp_forIn A streams _ _ (fun _ s' => WF U n s'.1 ∧ Acc 0 s'.1.rwnd s'.1.inStreams ∧
+          refine wp_forIn A streams _ _ (fun _ s' => WF U s'.1 ∧ Acc 0 s'.1.rwnd s'.1.inStreams ∧
             SidOk s'.1.inStreams ∧ s'.1.assoc = .established) _ ⟨h, ha, hso, hest⟩ ?_ ?_
           · intro sid rest ⟨e1, l1⟩ ⟨hw, hacc, hsok, hest1⟩
             simp only [wp_bind, wp_modE, wp_getE]
-            have hw1 : WF U n { e1 with inStreams := dictDel e1.inStreams sid } := by wf_same2 hw
+            have hw1 : WF U { e1 with inStreams := dictDel e1.inStreams sid } := by wf_same2 hw
             split
             · rename_i i hsome
               have hi := hw.ch.dcIdx _ (dictGet_mem hsome)
@@ -193,16 +193,16 @@ theorem wp_receiveReconfigParam {A} {p : RcParam} {Q : Unit → St → Prop} {e 
               exact ⟨hw1, hacc.del sid, hsok.del sid, hest1⟩
           · intro ⟨e1, l1⟩ ⟨hw, hacc, hsok, hest1⟩
             simp only [wp_modE, wp_bind]
-            have hw1 : WF U n { e1 with reconfigResponseSeq := reqSeq } :=
-              ⟨hw.net, hw.ch, hw.tx, hw.rx, hw.rcReq, inRange32_ofNat hr1, hw.sack, hw.room, hw.ids, hw.cap, hw.tm1, hw.tm2, hw.tasks, hw.rcr⟩
+            have hw1 : WF U { e1 with reconfigResponseSeq := reqSeq } :=
+              ⟨hw.net, hw.ch, hw.tx, hw.rx, hw.rcReq, inRange32_ofNat hr1, hw.sack, hw.ids, hw.cap, hw.tm1, hw.tm2, hw.tasks, hw.rcr⟩
             refine wp_sendReconfigResponse hw1 hr1 ?_
             intro l'; exact hq _ _ hw1 hacc hsok hest1
   | addOut reqSeq cnt =>
     have hr1 : reqSeq < 4294967296 := hp
     unfold receiveReconfigParam
     simp only [wp_bind, wp_modE]
-    have hw1 : WF U n { e with inboundCount := e.inboundCount + cnt, reconfigResponseSeq := reqSeq } :=
-      ⟨h.net, h.ch, h.tx, h.rx, h.rcReq, inRange32_ofNat hr1, h.sack, h.room, h.ids, h.cap, h.tm1, h.tm2, h.tasks, h.rcr⟩
+    have hw1 : WF U { e with inboundCount := e.inboundCount + cnt, reconfigResponseSeq := reqSeq } :=
+      ⟨h.net, h.ch, h.tx, h.rx, h.rcReq, inRange32_ofNat hr1, h.sack, h.ids, h.cap, h.tm1, h.tm2, h.tasks, h.rcr⟩
     refine wp_sendReconfigResponse hw1 hr1 ?_
     intro l'; exact hq _ _ hw1 ha hso hest
   | resetResp respSeq result =>
@@ -212,7 +212,7 @@ theorem wp_receiveReconfigParam {A} {p : RcParam} {Q : Unit → St → Prop} {e 
     · rename_i reqSeq x1 x2 streams hreq
       split
       · simp only [wp_bind]
-        refine wp_forIn A streams _ _ (fun _ s' => WF U n s'.1 ∧ s'.1.rwnd = e.rwnd ∧ s'.1.inStreams = e.inStreams ∧
+        refine wp_forIn A streams _ _ (fun _ s' => WF U s'.1 ∧ s'.1.rwnd = e.rwnd ∧ s'.1.inStreams = e.inStreams ∧
           s'.1.assoc = .established) _ ⟨h, rfl, rfl, hest⟩ ?_ ?_
         · intro sid rest ⟨e1, l1⟩ ⟨hw, hr1, hi1, hest1⟩
           simp only [wp_bind, wp_modE]
